@@ -2,7 +2,7 @@
 From Coq Require Import List NArith ZArith Bool String.
 From Coq Require Import Strings.Byte.
 From NfpmV Require Import Lib.Bytes Model.Content Model.Meta Model.Prepare Model.Merge Spec.C13.
-From NfpmV Require Import Proofs.C13Proofs.
+From NfpmV Require Import Proofs.C13Proofs Proofs.C13Ptr.
 Import ListNotations.
 Open Scope string_scope.
 Open Scope list_scope.
@@ -16,6 +16,14 @@ Theorem C13_leaf_override_or_base : forall p n b o lb lo,
   path_get (merge n b o) p = Some (if is_empty_value lo then lb else lo).
 Proof. exact merge_leaf. Qed.
 Print Assumptions C13_leaf_override_or_base.
+
+(* the same through pointers that are set on both sides (the key ids), at any depth *)
+Theorem C13_leaf_through_pointers : forall p n b o lb lo,
+  List.length p < n ->
+  path_get2 b p = Some lb -> path_get2 o p = Some lo -> plain lo = true ->
+  path_get2 (merge n b o) p = Some (if is_empty_value lo then lb else lo).
+Proof. exact merge_leaf2. Qed.
+Print Assumptions C13_leaf_through_pointers.
 
 (* nothing else changes: the field names of a block stay as they are, a field the override lacks keeps its value,
    an unset pointer changes nothing *)
